@@ -1,7 +1,7 @@
 """Bounded stand-in for C15: every option of the real settings schema x representative values x the three configuration formats
 (project-file metadata, fpm.toml [extra.ford], --config), through the real load_settings + parse_arguments; the effective settings must agree."""
 from __future__ import annotations
-import dataclasses, os, pathlib, typing, contextlib, io
+import dataclasses, json, os, pathlib, typing, contextlib, io
 from bounded import realrun
 from harness import loader
 
@@ -249,3 +249,47 @@ CONFIG_KNOWN = {"exclude_dir", "extensions", "extra_filetypes", "project_url", "
 def config_diffs():
     """options whose value differs when given through --config instead of fpm.toml"""
     return sorted({name for name, v, res in all_diffs(("toml", "config"))})
+
+
+FILE_VALUES = {"warn": True, "force": True, "graph": True, "search": False, "quiet": True, "dbg": False, "externalize": True, "revision": "from-file", "css": "./my.css",
+               "page_dir": "./pages", "macro": ["FILE=1"], "extensions": ["f90x"]}
+
+
+def argv_case():
+    """the real command line (argparse, through ford.initialize()) with nothing but the project file on it: every option keeps the value the file gives it"""
+    import sys
+    init = loader.import_init()
+    bad = []
+    for fmt in ("md", "toml"):
+        md = "".join(f"{k}: {md_repr(k, v) if not isinstance(v, (bool, str)) else str(v).lower() if isinstance(v, bool) else v}\n" for k, v in FILE_VALUES.items() if not isinstance(v, list)) \
+            + "macro: FILE=1\nextensions: f90x\n"
+        toml = "".join(f"{k} = {str(v).lower() if isinstance(v, bool) else json.dumps(v)}\n" for k, v in FILE_VALUES.items())
+        files = {"src/a.f90": "module a\nend module a\n", "pages/index.md": "---\ntitle: t\n---\nx\n", "my.css": "",
+                 "proj.md": "---\nproject: demo\npreprocess: false\n" + (md if fmt == "md" else "") + "---\n\nText\n"}
+        if fmt == "toml":
+            files["fpm.toml"] = 'name = "demo"\n[extra.ford]\nproject = "demo"\npreprocess = false\n' + toml
+        with realrun.project_dir(files) as d:
+            cwd, argv = os.getcwd(), sys.argv
+            os.chdir(realrun.TMPROOT)
+            sys.argv = ["ford", os.path.join(d, "proj.md")]
+            out = io.StringIO()
+            try:
+                with contextlib.redirect_stdout(out), contextlib.redirect_stderr(out):
+                    data, docs = init.initialize()
+            except BaseException as e:
+                bad.append((f"{fmt}: initialize() with only the project file on the command line", f"{type(e).__name__}: {e}", "settings"))
+                continue
+            finally:
+                os.chdir(cwd)
+                sys.argv = argv
+            for k, v in FILE_VALUES.items():
+                got = getattr(data, k)
+                if k in ("css", "page_dir"):
+                    got, v = os.path.basename(str(got)), os.path.basename(v)
+                if k == "extensions":
+                    ok = "f90x" in got
+                else:
+                    ok = got == v
+                if not ok:
+                    bad.append((f"{fmt}: option `{k}` is not on the command line and must keep the value of the file", got, v))
+    return bad
